@@ -8,20 +8,58 @@ let show_split = function
 (* '_' is accepted as a field separator of an input (see shelltrace) *)
 let unus inp = String.map (fun c -> if c = '_' then ' ' else c) inp
 
+(* session ops: n Next, r Rest, e Err, z Reset, s Scanner.Split, a Each to the end, b / c Each whose
+   callback returns false at the first / second token *)
+let xops_of rest =
+  let ops = match rest with [o] -> o | _ -> "" in
+  List.concat (List.init (String.length ops) (fun i -> match ops.[i] with
+    | 'n' -> [M.XNext] | 'r' -> [M.XRest] | 'e' -> [M.XErr] | 'z' -> [M.XReset] | 's' -> [M.XSplit]
+    | 'a' -> [M.XEach M.O] | 'b' -> [M.XEach (nat_of_int 1)] | 'c' -> [M.XEach (nat_of_int 2)]
+    | _ -> []))
+
+let show_xout each_tag = function
+  | M.XRNext (ok, t, c) -> "n" ^ b01 ok ^ ":" ^ hex t ^ ":" ^ b01 c
+  | M.XRRest r -> "r" ^ hex r
+  | M.XRErr e -> if e then "e1" else "e0"
+  | M.XRReset -> "z"
+  | M.XRSplit (toks, t, c) -> "s" ^ hexs toks ^ ":" ^ hex t ^ ":" ^ b01 c
+  | M.XREach (toks, t, c) -> each_tag ^ hexs toks ^ ":" ^ hex t ^ ":" ^ b01 c
+  | M.XRPanic -> "PANIC"
+
+(* the implementation's observations, parsed; anything unreadable becomes XRPanic (never accepted) *)
+let parse_xout o =
+  let tail () = String.sub o 1 (String.length o - 1) in
+  if o = "PANIC" || o = "" then M.XRPanic else
+  match o.[0] with
+  | 'r' -> M.XRRest (unhex (tail ()))
+  | 'e' -> (match o with "e0" -> M.XRErr false | "e1" -> M.XRErr true | _ -> M.XRPanic)
+  | 'z' -> if o = "z" then M.XRReset else M.XRPanic
+  | 'n' -> (match String.split_on_char ':' (tail ()) with
+            | [ok; t; c] -> M.XRNext (ok = "1", unhex t, c = "1") | _ -> M.XRPanic)
+  | 's' -> (match String.split_on_char ':' (tail ()) with
+            | [toks; t; c] -> M.XRSplit (unhexs toks, unhex t, c = "1") | _ -> M.XRPanic)
+  | 'a' | 'b' | 'c' -> (match String.split_on_char ':' (tail ()) with
+            | [toks; t; c] -> M.XREach (unhexs toks, unhex t, c = "1") | _ -> M.XRPanic)
+  | _ -> M.XRPanic
+
 let eval inp =
   match words (unus inp) with
   | ["S"; s] -> show_split (M.split (unhex s))
   | ["Q"; s] -> hex (M.quote (unhex s))
   | ["J"; ss] -> hex (M.join (unhexs ss))
   | ["R"; ss] -> show_split (M.split (M.join (unhexs ss)))
+  | ["H"; ss] ->
+    let l = unhexs ss in
+    let rec prefixes acc = function [] -> [] | x :: r -> let p = acc @ [x] in p :: prefixes p r in
+    hexs (List.map M.quote l) ^ ";" ^ hexs (List.map M.join (prefixes [] l))
   | "N" :: _k :: s :: rest ->
-    let ops = match rest with [o] -> o | _ -> "" in
-    let ops = List.init (String.length ops) (fun i -> if ops.[i] = 'r' then M.ORest else M.ONext) in
-    let outs = M.run_ops (M.new_scanner (unhex s)) ops in
-    String.concat ";" (List.map (function
-      | M.RNext (ok, t, c) -> "n" ^ b01 ok ^ ":" ^ hex t ^ ":" ^ b01 c
-      | M.RRest r -> "r" ^ hex r
-      | M.RPanic -> "PANIC") outs)
+    let ops = xops_of rest in
+    let outs = M.run_opsx (unhex s) (M.new_scanner (unhex s)) ops in
+    let tag = function M.XEach M.O -> "a" | M.XEach (M.S M.O) -> "b" | M.XEach _ -> "c" | _ -> "" in
+    let rec zip ops outs = match ops, outs with
+      | op :: ops', o :: outs' -> show_xout (tag op) o :: zip ops' outs'
+      | _, _ -> [] in
+    String.concat ";" (zip ops outs)
   | _ -> "?"
 
 let parse_split out =
@@ -69,6 +107,8 @@ let explain_session s rest out =
         end in
     go 0 fs outs false false
 
+let only_nr rest = match rest with [o] -> String.for_all (fun c -> c = 'n' || c = 'r') o | _ -> true
+
 let spec prop inp out =
   match prop, words (unus inp) with
   | "C16", ["S"; s] ->
@@ -77,21 +117,13 @@ let spec prop inp out =
     else Some ("reference tokenizer gives " ^ b01 ok ^ " " ^ hexs fs)
   | "C16", ("N" :: _ :: s :: rest) ->
     (* the property on the implementation's observations: the extracted reference session checker
-       (ShellSession.session_ok, the function of theorem C16_session); the hand-written walk explain_session above
-       only words the reason *)
-    let opstr = match rest with [o] -> o | _ -> "" in
-    let ops = List.init (String.length opstr) (fun i -> if opstr.[i] = 'r' then M.ORest else M.ONext) in
-    let parse o =
-      if o = "PANIC" then M.RPanic
-      else if o.[0] = 'r' then M.RRest (unhex (String.sub o 1 (String.length o - 1)))
-      else match String.split_on_char ':' (String.sub o 1 (String.length o - 1)) with
-        | [ok; t; c] -> M.RNext (ok = "1", unhex t, c = "1")
-        | _ -> M.RPanic in
-    let outs = if out = "" then [] else List.map parse (String.split_on_char ';' out) in
-    if M.session_ok (unhex s) ops outs then None
-    else Some (match explain_session s rest out with
+       (ShellSession.session_okx, the function of theorem C16_sessionx, which reads Next/Rest exactly as
+       session_ok of C16_session does); the hand-written walk explain_session only words the reason *)
+    let outs = if out = "" then [] else List.map parse_xout (String.split_on_char ';' out) in
+    if M.session_okx (unhex s) (xops_of rest) outs then None
+    else Some (match (if only_nr rest then explain_session s rest out else None) with
                | Some r -> r
-               | None -> "observations rejected by the reference session checker (Text/Complete changed after the end, or Rest is not exactly the unconsumed input)")
+               | None -> "observations rejected by the reference session checker (a token, Text, Complete or Err differs from the reference, Text/Complete changed after the end, or Rest is not exactly the unconsumed input)")
   | "C15", ["R"; ss] ->
     if out = "1 " ^ hexs (unhexs ss) then None else Some "Split(Join(ss)) differs from (ss, true)"
   | "C15", ["Q"; s] ->
@@ -101,6 +133,22 @@ let spec prop inp out =
      | Some [w] when w = sb -> None
      | Some ws -> Some ("a POSIX shell reads the quoted text as " ^ hexs ws)
      | None -> Some "quoted text leaves a special character unquoted or a quote open")
+  | "C15", ["H"; ss] ->
+    (* every held result, read after the last call, must still be what a POSIX shell reads back as
+       the argument(s) it was made from *)
+    let l = unhexs ss in
+    if List.exists (List.mem M.N0) l then None else
+    let rec prefixes acc = function [] -> [] | x :: r -> let p = acc @ [x] in p :: prefixes p r in
+    (match String.split_on_char ';' out with
+     | [qs; js] ->
+       let qs = unhexs qs and js = unhexs js in
+       if List.length qs <> List.length l || List.length js <> List.length l then Some "wrong number of held results" else
+       let badq = List.exists2 (fun q x -> M.posix_words q <> Some [x]) qs l in
+       let badj = List.exists2 (fun j p -> M.posix_words j <> Some p) js (prefixes [] l) in
+       if badq then Some "a held Quote result no longer reads back as its argument"
+       else if badj then Some "a held Join result no longer reads back as its arguments"
+       else None
+     | _ -> Some "bad output syntax")
   | "C15", ["J"; ss] ->
     let l = unhexs ss in
     if List.exists (List.mem M.N0) l then None else
